@@ -56,6 +56,7 @@ PROPERTY IndexFrame
 PROPERTY ThicknessFrame
 PROPERTY PickupsAfterUpdate
 PROPERTY ScaleFrame
+PROPERTY StructureRefined
 """
 
 
@@ -174,7 +175,7 @@ def main(ctx):
     build = cfg_text(spec="SpecBuild", base="Empty", depth=10, maxsurf=4, thick="MCThick",
                      media="MCMedia", conics="ZeroOnly", tilts="ZeroOnly", decs="ZeroOnly",
                      coefs="ZeroOnly", kinds="StdOnly", maxwl=2, maxpk=0, props=False,
-                     extra="INVARIANT MirrorKeeps\nPROPERTY VertexRunningSum\n")
+                     extra="INVARIANT MirrorKeeps\nPROPERTY VertexRunningSum\nPROPERTY StructureRefined\n")
     if quick:
         build = build.replace("Thick <- MCThick", "Thick <- SmallThick")
     ctx.model_check("MC_Lens", write_cfg(ctx, "build.cfg", build), workers=16)
@@ -184,7 +185,7 @@ def main(ctx):
                       thick="OneThick" if quick else "SmallThick", media="Media2", conics="MCConics",
                       tilts="ZeroOnly", decs="ZeroOnly", coefs="MCCoefs",
                       kinds="BothKinds", maxwl=1, maxpk=0, props=False,
-                      extra="PROPERTY VertexRunningSum\n")
+                      extra="PROPERTY VertexRunningSum\nPROPERTY StructureRefined\n")
     ctx.model_check("MC_Lens", write_cfg(ctx, "build2.cfg", build2), workers=16)
     for b in BASES:
         depth = {"Singlet": 3, "MirrorSys": 4, "Doublet": 3}[b] if quick else \
@@ -206,7 +207,8 @@ def main(ctx):
     for b in BASES:
         ctx.model_check("MC_Lens", write_cfg(ctx, "ins_%s.cfg" % b, cfg_text(base=b, depth=3 if (quick or b == "Doublet") else 4,
                         maxsurf=6, props=False, extras="InsertOnly", radii="SmallRadii", thick="OneThick",
-                        conics="ZeroOnly", tilts="ZeroOnly", decs="ZeroOnly", coefs="ZeroOnly", media="Media2")),
+                        conics="ZeroOnly", tilts="ZeroOnly", decs="ZeroOnly", coefs="ZeroOnly", media="Media2",
+                        extra="PROPERTY StructureRefined\n")),
                         workers=16)
         jobs_ins = gen_dump(ctx, "genins_%s" % b,
                             cfg_text(base=b, depth=3, maxsurf=6, radii="SmallRadii", thick="OneThick", conics="ZeroOnly",
@@ -231,6 +233,9 @@ def main(ctx):
         ctx.sample({"base_surfaces": len(j[0]["surf"]), "calls": j[1][:8]})
     for f in fails:
         ctx.report(f["clause"], classify(f), f["msg"], {"base": f["base"], "hist": f["hist"]})
+    # ---- 1b. the flag structure for lenses of every size (Apalache) -----------
+    from harness.drivers import c01_struct
+    c01_struct.run(ctx)
     # ---- 2b. update() as a multi-step process: spec/UpdateOrder.tla ----------
     from harness.drivers import c01_update
     c01_update.run(ctx)
